@@ -260,20 +260,20 @@ theorem siteOk_own {w : Wiring} {objs : List AObj} {o : AObj} {s : Site}
       simp only [Bool.and_eq_true] at hstep
       exact List.contains_iff_mem.mp hstep.1.1.1.1
 
-/-- COVERAGE: with a certificate, whatever chain of creation sites is followed from an interpreted
-member of `objs`, the object reached is again the interpretation of a member of `objs`. -/
-theorem reachFrom_covered {w : Wiring} {objs : List AObj} (hc : check w objs = true) (cfg : Cfg) :
-    ∀ (chain : List Site) (ao : AObj) (o : Obj), ao ∈ objs → (∀ s ∈ chain, s ∈ w.sites) →
-      reachFrom w (some (interpObj cfg ao)) chain = some o → ∃ ao' ∈ objs, o = interpObj cfg ao' := by
+theorem areachFrom_none (w : Wiring) (chain : List Site) : areachFrom w none chain = none := by
+  cases chain <;> rfl
+
+/-- PARAMETRICITY, whole chains: with a certificate, following any chain of creation sites from the
+interpretation of a member of `objs` is the interpretation of following it symbolically. -/
+theorem reachFrom_interp {w : Wiring} {objs : List AObj} (hc : check w objs = true) (cfg : Cfg) :
+    ∀ (chain : List Site) (ao : AObj), ao ∈ objs → (∀ s ∈ chain, s ∈ w.sites) →
+      reachFrom w (some (interpObj cfg ao)) chain = (areachFrom w (some ao) chain).map (interpObj cfg) := by
   intro chain
   induction chain with
-  | nil =>
-    intro ao o hao _ hr
-    simp only [reachFrom, Option.some.injEq] at hr
-    exact ⟨ao, hao, hr.symm⟩
+  | nil => intro ao _ _; rfl
   | cons s r ih =>
-    intro ao o hao hin hr
-    simp only [reachFrom] at hr
+    intro ao hao hin
+    simp only [reachFrom, areachFrom]
     have hs : s ∈ w.sites := hin s (List.mem_cons_self ..)
     have hok := check_site hc ao hao s hs
     by_cases ho : s.owner = ao.cd
@@ -283,27 +283,70 @@ theorem reachFrom_covered {w : Wiring} {objs : List AObj} (hc : check w objs = t
         rw [hcd] at hcd'
         cases hcd'
         exact hdet)
-      rw [hsim] at hr
+      rw [hsim]
       cases hst : astep w ao s with
-      | none => rw [hst] at hr; simp [reachFrom_none] at hr
+      | none => simp [reachFrom_none, areachFrom_none]
       | some ao' =>
-        rw [hst] at hr
-        exact ih ao' o (hstep ao' hst) (fun x hx => hin x (List.mem_cons_of_mem _ hx)) hr
-    · have : step w (interpObj cfg ao) s = none := by
+        simp only [Option.map_some]
+        exact ih ao' (hstep ao' hst) (fun x hx => hin x (List.mem_cons_of_mem _ hx))
+    · have h1 : step w (interpObj cfg ao) s = none := by
         unfold step
         have hcd : (interpObj cfg ao).cd = ao.cd := rfl
         rw [hcd]
         simp [ho]
-      rw [this, reachFrom_none] at hr
-      cases hr
+      have h2 : astep w ao s = none := by
+        unfold astep
+        simp [ho]
+      rw [h1, h2, reachFrom_none, areachFrom_none]
+      rfl
 
+/-- the symbolic objects met along a chain stay inside a certified set -/
+theorem areachFrom_mem {w : Wiring} {objs : List AObj} (hc : check w objs = true) :
+    ∀ (chain : List Site) (ao ao' : AObj), ao ∈ objs → (∀ s ∈ chain, s ∈ w.sites) →
+      areachFrom w (some ao) chain = some ao' → ao' ∈ objs := by
+  intro chain
+  induction chain with
+  | nil =>
+    intro ao ao' hao _ h
+    simp only [areachFrom, Option.some.injEq] at h
+    exact h ▸ hao
+  | cons s r ih =>
+    intro ao ao' hao hin h
+    simp only [areachFrom] at h
+    have hs : s ∈ w.sites := hin s (List.mem_cons_self ..)
+    cases hst : astep w ao s with
+    | none => rw [hst, areachFrom_none] at h; cases h
+    | some a1 =>
+      rw [hst] at h
+      have ho : s.owner = ao.cd := by
+        by_cases ho : s.owner = ao.cd
+        · exact ho
+        · unfold astep at hst; simp [ho] at hst
+      obtain ⟨_, _, _, _, hstep⟩ := siteOk_own (check_site hc ao hao s hs) ho
+      exact ih a1 ao' (hstep a1 hst) (fun x hx => hin x (List.mem_cons_of_mem _ hx)) h
+
+theorem reach_interp {w : Wiring} {objs : List AObj} (hc : check w objs = true) (cfg : Cfg)
+    (chain : List Site) (hin : ∀ s ∈ chain, s ∈ w.sites) :
+    reach w cfg chain = (areachFrom w (aroot w) chain).map (interpObj cfg) := by
+  obtain ⟨ar, har, hmem⟩ := check_root hc
+  unfold reach
+  rw [root_interp, har]
+  exact reachFrom_interp hc cfg chain ar hmem hin
+
+/-- COVERAGE: with a certificate, whatever chain of creation sites is followed from the font, the
+object reached is the interpretation of a member of `objs`. -/
 theorem reach_covered {w : Wiring} {objs : List AObj} (hc : check w objs = true) (cfg : Cfg)
     (chain : List Site) (o : Obj) (hin : ∀ s ∈ chain, s ∈ w.sites) (hr : reach w cfg chain = some o) :
     ∃ ao ∈ objs, o = interpObj cfg ao := by
+  rw [reach_interp hc cfg chain hin] at hr
   obtain ⟨ar, har, hmem⟩ := check_root hc
-  unfold reach at hr
-  rw [root_interp, har] at hr
-  exact reachFrom_covered hc cfg chain ar o hmem hin hr
+  rw [har] at hr
+  cases h : areachFrom w (some ar) chain with
+  | none => rw [h] at hr; cases hr
+  | some ao =>
+    rw [h] at hr
+    simp only [Option.map_some, Option.some.injEq] at hr
+    exact ⟨ao, areachFrom_mem hc chain ar ao hmem hin h, hr.symm⟩
 
 theorem interp_paramOr_dflt (cfg : Cfg) (r : Role) :
     interp cfg (.paramOr r (dfltName r)) = some (expected cfg r) := by
@@ -325,6 +368,41 @@ theorem flow_of_check {w : Wiring} {objs : List AObj} (hc : check w objs = true)
   simp only [hown', if_true, hcd]
   rw [hval r hd]
   exact interp_paramOr_dflt cfg r
+
+/-! ## Looking sites up by id -/
+
+theorem site_some {w : Wiring} {id : String} {s : Site} (h : w.site id = some s) : s ∈ w.sites ∧ s.id = id := by
+  unfold Wiring.site at h
+  refine ⟨List.mem_of_find?_eq_some h, ?_⟩
+  have := List.find?_some h
+  simpa using this
+
+theorem mapM_site_mem {w : Wiring} : ∀ {ids : List String} {chain : List Site},
+    ids.mapM w.site = some chain → ∀ s ∈ chain, s ∈ w.sites := by
+  intro ids
+  induction ids with
+  | nil =>
+    intro chain h s hs
+    simp at h
+    subst h
+    cases hs
+  | cons i r ih =>
+    intro chain h s hs
+    rw [List.mapM_cons] at h
+    cases h1 : w.site i with
+    | none => simp [h1] at h
+    | some s1 =>
+      cases h2 : r.mapM w.site with
+      | none => simp [h1, h2] at h
+      | some c2 =>
+        simp [h1, h2] at h
+        subst h
+        rcases List.mem_cons.mp hs with e | e
+        · exact e ▸ (site_some h1).1
+        · exact ih h2 s e
+
+theorem mem_roleAll (r : Role) : r ∈ Role.all := by
+  cases r <;> simp [Role.all]
 
 end Classes
 end DefconModel
